@@ -15,6 +15,7 @@ import (
 	"net/http"
 	"net/http/httptest"
 	"net/netip"
+	"sync"
 	"testing"
 	_ "time/tzdata"
 
@@ -164,5 +165,78 @@ func TestVFC18ServicesPause(t *testing.T) {
 					dom, svc, addr.Addr(), got, want, rule, globalIDs, globalPaused, gzone, asClient && own, clientIDs, clientPaused, czone, o.Asked, o.Res.Rcode)
 			}
 		}
+	})
+}
+
+// TestVFC18UpdateVsRequests: the pause schedule is changed through PUT
+// /control/blocked_services/update while requests are being processed (each
+// request asks the filter for the services in force).  Once the call has been
+// answered, every request follows the new schedule -- whatever the requests in
+// flight during the change did.
+func TestVFC18UpdateVsRequests(t *testing.T) {
+	vfkit.Begin(t)
+	rapid.Check(t, func(t *rapid.T) {
+		handlers := map[string]http.HandlerFunc{}
+		webRegistered = false
+		zone := rapid.SampledFrom(vfC18Zones).Draw(t, "zone")
+		w, err := vfNewWorld(&vfWorldConf{
+			ProtectionEnabled: true, FilteringEnabled: true, ServiceIDs: []string{"youtube"}, ServicesPaused: false, ServicesZone: zone,
+			Mode:         filtering.BlockingModeNXDOMAIN,
+			HTTPRegister: func(method, url string, h http.HandlerFunc) { handlers[method+" "+url] = h },
+		})
+		if err != nil {
+			t.Fatalf("VERIF-INCONCLUSIVE world: %v", err)
+		}
+		defer w.close()
+		w.flt.RegisterFilteringHandlers()
+		put := handlers["PUT /control/blocked_services/update"]
+		if put == nil {
+			t.Fatalf("VERIF-INCONCLUSIVE no handler for PUT /control/blocked_services/update")
+		}
+		inForce := func() bool {
+			setts := w.flt.Settings()
+			w.flt.ApplyBlockedServices(setts)
+
+			return len(setts.ServicesRules) > 0
+		}
+
+		workers := rapid.IntRange(2, 8).Draw(t, "request_goroutines")
+		changes := rapid.IntRange(20, 200).Draw(t, "schedule_changes")
+		stop := make(chan struct{})
+		var wg sync.WaitGroup
+		for g := 0; g < workers; g++ {
+			wg.Add(1)
+			go func() {
+				defer wg.Done()
+				for {
+					select {
+					case <-stop:
+						return
+					default:
+						_ = inForce()
+					}
+				}
+			}()
+		}
+		defer func() { close(stop); wg.Wait() }()
+
+		paused := false
+		for i := 0; i < changes; i++ {
+			paused = !paused
+			b, _ := json.Marshal(map[string]any{"ids": []string{"youtube"}, "schedule": vfWeekIn(zone, paused)})
+			rec := httptest.NewRecorder()
+			put(rec, httptest.NewRequest(http.MethodPut, "/control/blocked_services/update", bytes.NewReader(b)))
+			if rec.Code != http.StatusOK {
+				t.Fatalf("PUT /control/blocked_services/update refused: %d %s", rec.Code, rec.Body.String())
+			}
+			got := inForce()
+			vfC18.Eval()
+			if got == paused {
+				t.Fatalf("change %d of %d: the schedule now pauses the blocking all week: %t (zone %s), the call was answered 200, and a request made afterwards finds the service blocked: %t (%d request goroutines running)",
+					i+1, changes, paused, zone, got, workers)
+			}
+		}
+		vfC18.Class("services:schedule_changed_while_requests_run")
+		vfC18.Nontrivial(fmt.Sprintf("update_vs_requests|%s|%d|%d", zone, workers, changes))
 	})
 }
